@@ -38,6 +38,8 @@ type loopResult struct {
 	historyMsg                                         string
 	rawTables                                          []rawTable // SQLite's own catalogue of db0
 	created                                            []string   // tables the SQL export creates
+	scriptCase, scriptObs                              string     // tie of Sqlite/ExportRealm.v
+	unboundCase, unboundObs                            string
 }
 
 func loopOnce(script string) *loopResult {
@@ -124,6 +126,12 @@ func loopOnDB(db0 *sql.DB, r *loopResult) {
 			}
 		}
 		db2.Close()
+	}
+	if s0g, _, err := inspectDB(db0); err == nil {
+		r.scriptCase, r.scriptObs = scriptTie(s0g, r.sql, r.sqlPlanErr, r.sqlExecErr)
+		if len(s0g.Tables) > 0 {
+			r.unboundCase, r.unboundObs = unboundTie(drv2, s0g)
+		}
 	}
 	// ---- stable
 	s0e, drv3, err := inspectDB(db0)
